@@ -646,7 +646,7 @@ func (w *c06World) answers(conf *RegConfig, provided string) c06Answers {
 			if addr.IP != nil {
 				text = addr.IP.String()
 			}
-			resF = fmt.Sprintf("A,%s,%s,%s", vlib.B(addr.IP == nil), c06Hex(addr.Zone), c06Hex(text))
+			resF = fmt.Sprintf("A,%s,%s,%s,%s", vlib.B(addr.IP == nil), c06Hex(addr.Zone), c06Hex(text), vlib.B(addr.IP.IsUnspecified()))
 			var bh, ah []bool
 			for _, n := range conf.covertBlocklistSubnets {
 				bh = append(bh, n.Contains(addr.IP))
@@ -801,13 +801,15 @@ func (w *c06World) runC06(out *vlib.Out, pp *c06Parsed, provided string, gen int
 			// what the standard library says about the string that was handed to net.Dial
 			sh, sp, _ := net.SplitHostPort(stored.Covert)
 			hostIsIP := net.ParseIP(sh) != nil
+			unspec := false
 			if hostIsIP {
+				unspec = net.ParseIP(sh).IsUnspecified()
 				sh = net.ParseIP(sh).String()
 			}
 			if pn, err := strconv.ParseUint(sp, 10, 16); err == nil {
 				sp = strconv.FormatUint(pn, 10)
 			}
-			dialIn = "O," + c06Hex(sh) + "," + sp + "," + vlib.B(hostIsIP)
+			dialIn = "O," + c06Hex(sh) + "," + sp + "," + vlib.B(hostIsIP) + "," + vlib.B(unspec)
 			switch {
 			case dialDNS > 0:
 				dialOut = "R"
@@ -918,7 +920,8 @@ func (w *c06World) runC06(out *vlib.Out, pp *c06Parsed, provided string, gen int
 	}
 	// ---- a well-formed permitted literal is accepted unchanged
 	if splitErr == nil {
-		if hip := net.ParseIP(host); hip != nil && net.JoinHostPort(hip.String(), port) == provided {
+		// (the unspecified address is not a destination address: net.Dial replaces it by the local system)
+		if hip := net.ParseIP(host); hip != nil && !hip.IsUnspecified() && net.JoinHostPort(hip.String(), port) == provided {
 			if _, perr := strconv.ParseUint(port, 10, 16); perr == nil && !pp.domainBlocked(host) {
 				if ok, _, _ := pp.permitted(hip); ok {
 					out.Count("oracle:permitted-literal")
@@ -1205,7 +1208,8 @@ func TestVerifC06(t *testing.T) {
 		w.replay(t, out, rp)
 		return
 	}
-	c06CheckDialSite(out)
+	// source facts last: a dynamic failure, which comes with an executable replay, is reported first
+	defer c06CheckDialSite(out)
 
 	r := vlib.NewRand("C06")
 	freePort := strconv.Itoa(w.rec.freePort())
